@@ -81,9 +81,22 @@ def big_str(rng):
         return 'x' * n
     return ('a' * (n - 2) + '€') * 2
 
+MID = [62, 63, 64, 65, 66]       # byte lengths around the 1-byte / 2-byte boundary of the length prefix (zig-zag 64 = 0x80 0x01)
+
+def mid_str(rng):
+    n = rng.choice(MID)
+    k = rng.below(3)
+    if k == 0:
+        return 'm' * n
+    if k == 1:
+        return 'm' * (n - 2) + 'é'            # the same byte length with a 2-byte character at the end
+    return '€' * (n // 3) + 'z' * (n % 3)
+
 def gen_str(rng):
     if rng.chance(1, 40):
         return big_str(rng)
+    if rng.chance(1, 14):
+        return mid_str(rng)
     if rng.chance(1, 2):
         return rng.choice(STRS)
     n = rng.below(12)
@@ -95,6 +108,8 @@ def gen_bytes(rng, n=None):
         if rng.chance(1, 40):
             n = rng.choice(BIG)
             return bytes((i * 31 + 7) & 0xff for i in range(n))
+        if rng.chance(1, 14):
+            return rng.bytes(rng.choice(MID))
         n = rng.choice([0, 1, 2, 3, 7, 16, 127, 128]) if rng.chance(1, 2) else rng.below(20)
     return rng.bytes(n)
 
